@@ -16,7 +16,7 @@ for a in "$@"; do printf ' [%s]' "$a"; done
 """
 
 def gen_table(rng):
-    names = [b"joe", b"Ann", b"list", b"listE", b"list-", b"LIST-dev", b"a.b", b"root", b"x", b"salesForce", b"SALES"]
+    names = [b"joe", b"Ann", b"list", b"listE", b"list-", b"LIST-dev", b"a.b", b"root", b"x", b"salesForce", b"SALES", b"jos\xc3\xa9", b"m\xfcller", b"\xff\x80z"]
     lines = []
     uid = 20000
     if rng.random() < 0.5:
@@ -205,6 +205,14 @@ def main():
         ck.evaluated(); ck.count("setid_fault")
         if parse_stub(reps[0]) is not None or not reps[0].startswith(b"Z"):
             fails.append(("lspawn:exec-despite-failed-" + call, dict(kind="fault", call=call, report=reps[0].decode("latin1")[:200]), 0))
+    # ---------------- a temporary failure while looking at a user's home directory defers, it does not fall through to alias
+    if L.write_assign([("=", b"zzz", [b"zzz", b"20009", b"25009", b"/vh/zzz", b"", b""])]) == 0:
+        for err in (116, 5):
+            reps, lg = L.deliver([b"bob", b"bob-list"], extra={"SYSSHIM_FAIL": "stat:homes/bob:%d" % err})
+            for l, rep in zip([b"bob", b"bob-list"], reps):
+                ck.evaluated(); ck.count("getpw_stat_fault")
+                if parse_stub(rep) is not None or not rep.startswith(b"Z"):
+                    fails.append(("getpw:home-stat-failure-not-deferred", dict(kind="fault", call="stat", errno=err, local=l.decode(), report=rep.decode("latin1")[:200]), 0))
     ck.cov["disagreements_checked"] = len(mism)
     ck.cov["rule"] = ("users/assign tables (exact and wildcard entries, mixed case, prefixes ending in letters and dashes, catch-all present/absent, uid 0 entries, duplicates) compiled by qmail-newu x local parts "
                       "derived from them (case changes, extensions, near-misses) and from the passwd table (owned/unowned/missing homes, root, alias, 40-byte names); truncated cdb files; injected set*id failures. "
